@@ -93,7 +93,7 @@ Proof.
   - exact Hser.
   - vm_compute in Hser. inversion Hser. reflexivity.
   - vm_compute in Hser. inversion Hser. subst sst. intros e He. cbn in He.
-    repeat (destruct He as [<-|He]; [unfold sep; cbn [fst snd]; lia|]). destruct He.
+    repeat (destruct He as [<-|He]; [unfold sep, region_base, ARENA, STRIDE; cbn [fst snd]; lia|]). destruct He.
   - unfold inv. split.
     { unfold mem_bytes, ex_c_mr. repeat (apply Forall_cons; [apply bytes_okb'_ok; vm_compute; reflexivity|]). apply Forall_nil. }
     split; [change (lens ex_c_mr) with [7; 38]; repeat constructor; unfold STRIDE; lia|].
